@@ -10,7 +10,7 @@ from ._wcommon import (ASSUMPTIONS, COMPONENTS_REAL, COMPONENTS_STUB, Hist, Viol
 from ._wcommon import abstract_states  # noqa: F401,E402
 
 ID = "C02"
-RUNS = {"quick": 8000, "thorough": 250000}
+RUNS = {"quick": 12000, "thorough": 250000}
 BUDGET_S = {"quick": 60, "thorough": 900}
 RULE = ("seeded scenario scripts over the three acknowledge types x sync/async ack (with latency) x outcomes {return, exception, "
         "BaseException, timeout, no-result, save failure} x concurrent messages; ~35% of runs crash a worker at a scripted event "
